@@ -127,6 +127,10 @@ def build(r, name, repr_key, n, mask, fieldless, generics=None, style=None):
     spec = EnumSpec(name=name, variants=vs, derives=["FromRepr"], repr=repr_key, generics=generics)
     spec.attr_order_seed = r.choice([0, 1, 2, 3, 4, 5, 6])
     gen.add_noise(r, spec, enum_level=False, skip=("std_default",))
+    if r.random() < 0.25:
+        spec.nest = True          # from_repr is called from outside the enum's own module
+        if r.random() < 0.5:
+            spec.vis = r.choice(["pub(crate)", "pub(super)"])
     gen.rawify(r, spec, explicit_names=False)
     gen.maybe_macro_wrap(r, spec)
     for v in spec.variants:
